@@ -9,7 +9,7 @@ import impl_matchers as I
 import lib
 from lib import c_bool, c_opt, c_str
 
-FRAGMENT = {"wrappers": False, "override": False}     # the expressions C17 quantifies over
+FRAGMENT = {"wrappers": True, "override": False}      # the expressions C17 quantifies over (hide_result_details() in scope: F23)
 TRANSPARENT = ("is_", "hide")
 
 
@@ -135,34 +135,56 @@ def rw_negated_composite(e):
 DUAL = {"all_of": "any_of", "any_of": "all_of"}
 
 
-def negated_composite_under(a):
-    """a = not_^k(composite) (is_ is transparent, k >= 1): (k odd, the composite); else None."""
-    k = 0
-    while not G.is_value_arg(a) and a[0] in ("not_", "is_"):
+def hidden_composite_under(a, through=("not_", "is_", "hide")):
+    """a = a chain of not_ / hide_result_details() (is_ is transparent) over a composite, with at least one not_ or hide:
+    (number of not_ is odd, the chain contains a hide, the composite); else None."""
+    k, wrapped, hidden = 0, False, False
+    while not G.is_value_arg(a) and a[0] in through:
         k += a[0] == "not_"
+        wrapped = wrapped or a[0] == "hide"
+        hidden = hidden or a[0] in ("not_", "hide")
         a = a[1]
-    if k and not G.is_value_arg(a) and a[0] in ("all_of", "any_of"):
-        return k % 2 == 1, a
+    if hidden and not G.is_value_arg(a) and a[0] in ("all_of", "any_of"):
+        return k % 2 == 1, wrapped, a
     return None
 
 
-def rw_negated_operand(e):
-    """Open finding.  The same logic and, up to the layout, the same wording as e (on a tree with the F9b repair), with every
-    composite that sits behind not_() as an operand of another composite made visible to its parent: not_(all_of(b, c))
-    becomes any_of(not_(b), not_(c)).  The parent then itemises instead of joining the operand on its own line without
-    grouping."""
+def negated_composite_under(a):
+    """a = not_^k(composite), k >= 1, no wrapper in between: (k odd, the composite); else None."""
+    h = None if G.is_value_arg(a) else hidden_composite_under(a, ("not_", "is_"))
+    return (h[0], h[2]) if h else None
+
+
+def visible_form(odd, comp):
+    return (DUAL[comp[0]], [("not_", x) for x in comp[1]]) if odd else comp
+
+
+def rw_hidden_operand(e, wrapped_only):
     if G.is_value_arg(e):
         return e
     if e[0] in ("all_of", "any_of"):
         args = []
         for a in e[1]:
-            nc = None if G.is_value_arg(a) else negated_composite_under(a)
-            if nc:
-                odd, comp = nc
-                a = (DUAL[comp[0]], [("not_", x) for x in comp[1]]) if odd else comp
-            args.append(rw_negated_operand(a))
+            h = None if G.is_value_arg(a) else hidden_composite_under(a)
+            if h and h[1] == wrapped_only:
+                a = visible_form(h[0], h[2])
+            args.append(rw_hidden_operand(a, wrapped_only))
         return (e[0], args)
-    return map_args(e, rw_negated_operand)
+    return map_args(e, lambda a: rw_hidden_operand(a, wrapped_only))
+
+
+def rw_negated_operand(e):
+    """Repaired by fixes/F23-*.patch.  The same logic and, up to the layout, the same wording as e, with every composite that
+    sits behind not_() as an operand of another composite made visible to its parent: not_(all_of(b, c)) becomes
+    any_of(not_(b), not_(c)).  On a tree without the repair the parent then itemises instead of joining the operand on its own
+    line without grouping; on a repaired tree nothing changes (so the cause explains nothing there)."""
+    return rw_hidden_operand(e, False)
+
+
+def rw_wrapped_operand(e):
+    """Repaired by fixes/F23-*.patch.  As rw_negated_operand for a composite behind hide_result_details() (possibly with not_
+    around or inside the wrappers)."""
+    return rw_hidden_operand(e, True)
 
 
 def rw_empty_composite(e, parity=0):
@@ -173,17 +195,18 @@ def rw_empty_composite(e, parity=0):
     parent lays the two out differently)."""
     if G.is_value_arg(e):
         return e
-    x, k = e, 0
-    while not G.is_value_arg(x) and x[0] in ("not_", "is_"):
+    x, k, w = e, 0, False
+    while not G.is_value_arg(x) and x[0] in ("not_", "is_", "hide"):
         k += x[0] == "not_"
+        w = w or x[0] in ("not_", "hide")
         x = x[1]
     if not G.is_value_arg(x) and x[0] in ("all_of", "any_of") and not x[1]:
         if parity % 2 == 0:
-            return ("not_", ("not_", ("all_of", []))) if k else ("all_of", [])
-        return ("not_", ("all_of", [])) if k else ("any_of", [])
+            return ("not_", ("not_", ("all_of", []))) if w else ("all_of", [])
+        return ("not_", ("all_of", [])) if w else ("any_of", [])
     if e[0] == "not_":
         return ("not_", rw_empty_composite(e[1], parity + 1))
-    if e[0] in ("all_of", "any_of", "is_"):
+    if e[0] in ("all_of", "any_of", "is_", "hide"):
         return map_args(e, lambda a: rw_empty_composite(a, parity))
     return map_args(e, rw_empty_composite)
 
@@ -211,7 +234,8 @@ def rw_dict_key(e):
 # may change the logic -- it yields the expression that the wording reads as;  mode "layout": the rewrite must leave the logic
 # as it is (checked over the value domain) and the description up to its layout (same words in the same order).
 REWRITES = [("negated-composite", rw_negated_composite, "wording"), ("empty-composite", rw_empty_composite, "wording"),
-            ("dict-key", rw_dict_key, "wording"), ("negated-operand", rw_negated_operand, "layout")]
+            ("dict-key", rw_dict_key, "wording"), ("negated-operand", rw_negated_operand, "layout"),
+            ("wrapped-composite", rw_wrapped_operand, "layout")]
 
 
 def words_of(description):
@@ -274,6 +298,10 @@ def root_variants(e):
     yield ("not_", e)
     if op == "not_" and not G.is_value_arg(e[1]):
         yield e[1]
+    if op in ("all_of", "any_of"):
+        yield ("hide", e)
+    if op == "hide":
+        yield e[1]
     if op in ("all_of", "any_of") and len(e[1]) >= 2 and not G.is_value_arg(e[1][0]) and e[1][0][0] in ("all_of", "any_of") \
             and e[1][0][0] != op and len(e[1][0][1]) >= 2:
         inner = e[1][0]
@@ -296,7 +324,7 @@ def variants(e, root=root_variants):
 
 
 def negation_variants_at_root(e):
-    """The neighbours of root_variants that concern a negated composite (always tried, the others are sampled)."""
+    """The neighbours of root_variants that concern a negated or wrapped composite (always tried, the others are sampled)."""
     op = e[0]
     if op == "not_" and not G.is_value_arg(e[1]):
         inner = strip_transparent(e[1])
@@ -317,14 +345,27 @@ def negation_variants_at_root(e):
         if nc and nc[0] and nc[1][0] == op and len(nc[1][1]) >= 2:
             inner = nc[1][1]
             yield (DUAL[op], [negate(b) for b in inner[:-1]] + [("not_", (DUAL[op], [inner[-1]] + [negate(a) for a in e[1][1:]]))])
+        # a composite hidden behind not_ / hide_result_details() as first / last operand, read with the other connective:
+        #   rel1[H(rel2[x0.., xk]), c..]  reads  x0 rel2 .. xk rel1 c..  like  rel2[x0.., hide(rel1[xk, c..])]
+        for at_end in (False, True):
+            a = e[1][-1] if at_end else e[1][0]
+            h = None if G.is_value_arg(a) else hidden_composite_under(a)
+            if h:
+                rel2, xs = visible_form(h[0], h[2])
+                if rel2 != op and len(xs) >= 2:
+                    if at_end:
+                        yield (rel2, [("hide", (op, e[1][:-1] + [xs[0]]))] + xs[1:])
+                    else:
+                        yield (rel2, xs[:-1] + [("hide", (op, [xs[-1]] + e[1][1:]))])
 
 
 def gen_negated_composite(rng):
-    """Fragment expressions built around not_(composite): alone, as an operand of a composite, over a nested composite."""
+    """Fragment expressions built around not_(composite) / hide_result_details() on a composite: alone, as an operand of a
+    composite, over a nested composite."""
     def leaves(k):
         return [G.gen_leaf(rng, True) if rng.random() < 0.8 else ("not_", G.gen_leaf(rng, True)) for _ in range(k)]
     rel1, rel2 = rng.choice(["all_of", "any_of"]), rng.choice(["all_of", "any_of"])
-    shape = rng.randrange(4)
+    shape = rng.choice([0, 1, 1, 2, 3, 4, 4])
     if shape == 0:
         return ("not_", (rel1, leaves(rng.choice([1, 2, 2, 3]))))
     if shape == 1:
@@ -333,7 +374,14 @@ def gen_negated_composite(rng):
         return (rel1, ops)
     if shape == 2:
         return ("not_", (rel1, leaves(rng.choice([1, 2])) + [(rel2, leaves(2))]))
-    return (rng.choice(["has_item", "has_all_items", "has_length", "not_"]), ("not_", (rel1, leaves(2))))
+    if shape == 3:
+        return (rng.choice(["has_item", "has_all_items", "has_length", "not_"]), ("not_", (rel1, leaves(2))))
+    # a composite behind hide_result_details() (and not_) as an operand of a composite
+    inner = ("hide", (rel2, leaves(rng.choice([2, 2, 3]))))
+    inner = rng.choice([inner, inner, ("not_", inner), ("hide", ("not_", inner[1]))])
+    ops = leaves(rng.choice([1, 1, 2]))
+    ops.insert(rng.choice([0, len(ops)]), inner)
+    return (rel1, ops)
 
 
 # witnesses of the recorded findings (same as the Coq `..._refuted` theorems), replayed on every run
@@ -341,6 +389,7 @@ GT0, LT10, EQ5 = ("greater_than", 0), ("less_than", 10), ("equal_to", 5)
 WITNESSES = {
     # repaired (fixes/F09b-*.patch, "fixed" in known_findings.d/C17.json): kept as a regression witness, reported as a violation
     "negated-composite": (("not_", ("all_of", [GT0, LT10])), ("all_of", [("not_", GT0), ("not_", LT10)]), 20),
+    # repaired (fixes/F23-*.patch, "fixed"): regression witnesses, reported as violations
     "negated-operand": (("any_of", [("not_", ("any_of", [("not_", GT0), LT10])), ("not_", EQ5)]),
                         ("all_of", [GT0, ("not_", ("all_of", [LT10, EQ5]))]), 0),
     "empty-composite": (("all_of", []), ("any_of", []), None),
@@ -397,8 +446,8 @@ def check(run):
     run.assume += [
         "values are None, bool, int, str, list, dict (no float); override_description receives ASCII text; is_between bounds are ints",
         "faithfulness is evaluated on the fragment named by the property (leaf matchers, not_, all_of, any_of, has_entry, has_item, "
-        "has_all_items, has_length, type matchers; no hide_result_details / override_description), negated composites included "
-        "(F9b repaired), over a fixed separating value domain; user strings containing ' and ' / ' or ' as token boundaries are "
+        "has_all_items, has_length, type matchers, hide_result_details; no override_description), negated and wrapped "
+        "composites included (F9b, F23 repaired), over a fixed separating value domain; user strings containing ' and ' / ' or ' as token boundaries are "
         "not claimed",
         "match_pattern, is_text, is_json, is_float are not modelled",
     ]
@@ -524,10 +573,12 @@ def check(run):
         "settings, description string and transformer state afterwards compared with Model.Describe inside Coq; sentences "
         "recorded by real check_that calls; oracles on every expression: transformer unchanged after build_description, "
         "operands of a composite described as alone (probe matchers), not_(not_ m) worded as m, not_ m worded as m under the "
-        "flipped transformer, not_(composite) worded as the dual composite of the negations (De Morgan); faithfulness: "
-        "expressions of the property's fragment -- negated composites included -- and up to 8 semantic neighbours of each (one "
-        "connective swapped, one negation added or removed, a negation distributed with the same / the dual connective, a "
-        "sibling constructor, a re-association, the other grouping of a line holding a negated composite) grouped by "
+        "flipped transformer, not_(composite) worded exactly as the dual composite of the negations (De Morgan), a composite "
+        "with a composite operand -- bare, behind not_ or behind hide_result_details() -- itemised; faithfulness: "
+        "expressions of the property's fragment -- negated composites and hide_result_details() included -- and up to 8 "
+        "semantic neighbours of each (one connective swapped, one negation added or removed, hide_result_details() added or "
+        "removed, a negation distributed with the same / the dual connective, a sibling constructor, a re-association, the "
+        "other grouping of a line holding a negated or wrapped composite) grouped by "
         "description, accepted sets over a 29-value separating domain compared within a group, every collision must be "
         "explained by a recorded open cause whose rewrite is checked on the tree under test (wording-preserving, or "
         "logic-preserving and layout-only); "
@@ -567,6 +618,15 @@ def transformer_oracles(run, e, c, n, observed):
                               {"kind": "de-morgan", "expr": repr(small), "conjugate": c, "negative": n,
                                "negated": d1, "dual_of_negations": d2})
                 break
+    for x in nodes(e):
+        if x[0] in ("all_of", "any_of") and len(x[1]) >= 2:
+            if grouping_oracle(x, c, n):
+                small = G.shrink(x, lambda y: y[0] in ("all_of", "any_of") and bool(grouping_oracle(y, c, n)))
+                run.violation("grouping:composite-operand-joined-on-one-line",
+                              "a composite with an operand that is a composite (behind not_ / hide_result_details()) is described on one line",
+                              {"kind": "grouping", "expr": repr(small), "conjugate": c, "negative": n,
+                               "description": grouping_oracle(small, c, n)})
+                break
     dn = describe_full(("not_", ("not_", e)), c, n)[0]
     if dn != s:
         run.violation("negation:double-negation-worded-differently", "not_(not_(m)) is not described like m",
@@ -580,26 +640,21 @@ def transformer_oracles(run, e, c, n, observed):
                        "conjugate": c, "negative": n})
 
 
-def de_morgan_sides(x, c, n):
-    """For a composite x = rel[a, b..]: the descriptions of not_(x) and of dual_rel[not_(a), not_(b)..], and whether some operand
-    is itself an all_of / any_of object (then the first is always itemised and only the words are compared)."""
+def de_morgan_oracle(x, c, n):
+    """For a composite x = rel[a, b..]: None when not_(x) is described exactly like dual_rel[not_(a), not_(b)..] (also when an
+    operand is itself a composite: both sides are then itemised), else the two descriptions."""
     d1 = describe_full(("not_", x), c, n)[0]
     d2 = describe_full((DUAL[x[0]], [("not_", a) for a in x[1]]), c, n)[0]
-    nested = any(not G.is_value_arg(a) and strip_is(a)[0] in ("all_of", "any_of") for a in x[1])
-    return d1, d2, nested
+    return None if d1 == d2 else (d1, d2)
 
 
-def strip_is(a):
-    while not G.is_value_arg(a) and a[0] == "is_" and not G.is_value_arg(a[1]):
-        a = a[1]
-    return a
-
-
-def de_morgan_oracle(x, c, n):
-    """None when the negation of the composite x is worded by De Morgan, else the two descriptions."""
-    d1, d2, nested = de_morgan_sides(x, c, n)
-    if (words_of(d1) != words_of(d2)) if nested else (d1 != d2):
-        return d1, d2
+def grouping_oracle(x, c, n):
+    """For a composite x: when one of its operands is a composite -- bare, behind not_ or behind hide_result_details() -- the
+    description must be itemised (one item per operand), never one line.  Returns the description when it is not."""
+    if any(not G.is_value_arg(a) and (strip_transparent(a)[0] in ("all_of", "any_of") or hidden_composite_under(a)) for a in x[1]):
+        d = describe_full(x, c, n)[0]
+        if not d.startswith(":\n"):
+            return d
     return None
 
 
@@ -632,6 +687,10 @@ def replay(path):
         a, b = describe_full(("not_", e), rp["conjugate"], rp["negative"])[0], describe_full(e, rp["conjugate"], not rp["negative"])[0]
         print(json.dumps({"not_": a, "flipped": b}))
         return 1 if a != b else 0
+    if kind == "grouping":
+        d = grouping_oracle(G.parse(rp["expr"]), rp["conjugate"], rp["negative"])
+        print(json.dumps({"expr": rp["expr"], "description": d}))
+        return 1 if d else 0
     if kind == "de-morgan":
         hit = de_morgan_oracle(G.parse(rp["expr"]), rp["conjugate"], rp["negative"])
         print(json.dumps({"expr": rp["expr"], "negated": hit and hit[0], "dual_of_negations": hit and hit[1]}))
